@@ -75,6 +75,11 @@ func (ls2 *LeaseSet2) Verify() error {
 // Otherwise, the Destination's signing public key is returned.
 func (ls2 *LeaseSet2) signingPublicKeyForVerification() (types.SigningPublicKey, error) {
 	if ls2.HasOfflineKeys() && ls2.offlineSignature != nil {
+		// The transient key is only authoritative once the offline signature block
+		// itself verifies under the destination's long-term signing key.
+		if err := ls2.verifyOfflineSignature(); err != nil {
+			return nil, err
+		}
 		// Use transient signing public key from offline signature
 		transientKeyBytes := ls2.offlineSignature.TransientPublicKey()
 		transientSigType := ls2.offlineSignature.TransientSigType()
@@ -91,4 +96,26 @@ func (ls2 *LeaseSet2) signingPublicKeyForVerification() (types.SigningPublicKey,
 		return nil, oops.Errorf("failed to get signing public key from Destination: %w", err)
 	}
 	return spk, nil
+}
+
+// verifyOfflineSignature checks that the offline signature block was signed by
+// the destination's long-term signing key. Without this check any party could attach
+// its own transient key and have structures signed with it accepted.
+func (ls2 *LeaseSet2) verifyOfflineSignature() error {
+	destKey, err := ls2.destination.SigningPublicKey()
+	if err != nil {
+		return oops.Errorf("failed to get signing public key from Destination: %w", err)
+	}
+	if destKey == nil {
+		return oops.Errorf("destination has no signing public key")
+	}
+	identityKey := destKey.Bytes()
+	ok, err := ls2.offlineSignature.VerifySignature(identityKey)
+	if err != nil {
+		return oops.Errorf("offline signature verification failed: %w", err)
+	}
+	if !ok {
+		return oops.Errorf("offline signature is not valid under the identity's signing key")
+	}
+	return nil
 }
